@@ -102,6 +102,9 @@ func (in *Interp) foreign(fn *types.Func, recv Value, x *ast.CallExpr) []Value {
 		if !ok {
 			return []Value{&StrVal{}}
 		}
+		if src.Len() == 0 {
+			return []Value{&StrVal{Known: true}}
+		}
 		var chars []Value
 		for i := 0; i < src.Len(); i++ {
 			chars = append(chars, in.OpaqueBytes("hexchar", [][]Value{{src.At(i).V}}, 2, "hex digits")...)
@@ -338,6 +341,50 @@ func (in *Interp) foreign(fn *types.Func, recv Value, x *ast.CallExpr) []Value {
 			return []Value{NilVal{}, &ErrVal{NonNil: True}}
 		}
 		return []Value{&Opaque{Kind: "aes", Args: in.snapshot(key)}, &ErrVal{NonNil: False}}
+	case "github.com/NickBall/go-aes-key-wrap.Wrap":
+		// RFC 3394 key wrap as an uninterpreted function of (key, plaintext): n+8 bytes; Unwrap inverts exactly these
+		args := in.args(x, sig)
+		blk, ok := args[0].(*Opaque)
+		cek, ok2 := args[1].(*Slice)
+		if !ok || !ok2 || blk.Kind != "aes" {
+			in.fail(x, "keywrap.Wrap over %T, %T", args[0], args[1])
+		}
+		if cek.Len()%8 != 0 {
+			return []Value{&Slice{Back: &Backing{}, Elem: types.Typ[types.Uint8]}, &ErrVal{NonNil: True}}
+		}
+		out := in.OpaqueBytes("KWrap", [][]Value{blk.Args, in.snapshot(cek)}, cek.Len()+8, "RFC 3394 wrap")
+		return []Value{&Slice{Back: &Backing{E: cellsOf(out)}, Hi: len(out), Cap: len(out), Elem: types.Typ[types.Uint8]}, &ErrVal{NonNil: False}}
+	case "github.com/NickBall/go-aes-key-wrap.Unwrap":
+		args := in.args(x, sig)
+		blk, ok := args[0].(*Opaque)
+		ct, ok2 := args[1].(*Slice)
+		if !ok || !ok2 || blk.Kind != "aes" {
+			in.fail(x, "keywrap.Unwrap over %T, %T", args[0], args[1])
+		}
+		if ct.Len() < 16 {
+			in.crash(x, "keywrap.Unwrap of %d bytes (the library slices cipherText[:8] and concatenates at least one block)", ct.Len())
+		}
+		n := ct.Len()/8 - 1
+		cts := in.snapshot(ct)[:8*(n+1)]
+		// the output of Wrap under the same key unwraps to its plaintext and passes the integrity check
+		if id0, k0, ok0 := in.OpaqueOf(cts[0]); ok0 && k0 == 0 {
+			if t, okT := in.OpaqueDesc[id0]; okT && t.Kind == "KWrap" && len(t.Inputs) == 2 && len(t.Inputs[1])+8 == len(cts) && in.termKey(t.Inputs[0]) == in.termKey(blk.Args) {
+				all := true
+				for i := 1; i < len(cts); i++ {
+					if id, k, okI := in.OpaqueOf(cts[i]); !okI || id != id0 || k != i {
+						all = false
+						break
+					}
+				}
+				if all {
+					pl := append([]Value{}, t.Inputs[1]...)
+					return []Value{&Slice{Back: &Backing{E: cellsOf(pl)}, Hi: len(pl), Cap: len(pl), Elem: types.Typ[types.Uint8]}, &ErrVal{NonNil: False}}
+				}
+			}
+		}
+		out := in.OpaqueBytes("KUnwrap", [][]Value{blk.Args, cts}, 8*n+1, "RFC 3394 unwrap / integrity bit")
+		bad := out[8*n].(*Bits).Bits()[0]
+		return []Value{&Slice{Back: &Backing{E: cellsOf(out[:8*n])}, Hi: 8 * n, Cap: 8 * n, Elem: types.Typ[types.Uint8]}, &ErrVal{NonNil: bad}}
 	case "crypto/cipher.NewCBCDecrypter", "crypto/cipher.NewCBCEncrypter":
 		args := in.args(x, sig)
 		blk, ok := args[0].(*Opaque)
